@@ -190,7 +190,7 @@ def explore(spec, report, max_depth, max_states=None, sig_base=None, stop_on_fir
                     closed = False
                 else:
                     frontier.append((init, hist + (op,)))
-                if states % 7 == 3:
+                if states <= n_init + 2 or states % 97 == 0:
                     report.sample({"spec": spec.name, "init": init, "history": list(hist) + [op]})
             spec.cleanup(impl)
     report.part(spec.name, states=states, transitions=transitions, traces_validated_against_impl=transitions,
